@@ -396,6 +396,11 @@ class BuiltinCalls:
         if any(isinstance(a, tuple) for a in args):
             I.note_undecided("zip with mixed *args", node)
             return Top("zip*")
+        if len(args) >= 2 and isinstance(args[0], Ptr) and all(a == args[0] for a in args):
+            d0 = I.deref(state, args[0])
+            if d0 is not None and isinstance(d0[0], IterObj):
+                # zip(it, it, ...) on ONE iterator consumes it in turn: consecutive chunks (the *[iter(L)] * k idiom with a constant k)
+                return self.zip_star(Seq(Length.const(len(args)), args[0], "k", tuple(args), None, frozenset(), "list"), node, state, longest)
         seqs = []
         for a in args:
             s = I.to_seq(a, state, node)
@@ -404,6 +409,10 @@ class BuiltinCalls:
             seqs.append(s)
         if not seqs:
             return Seq(Length.const(0), Top("empty"), "k", (), None, frozenset(), "iter")
+        fx = [len(s.fixed) for s in seqs if s.fixed is not None]
+        if fx and len(set(fx)) == 1 and len(fx) < len(seqs):
+            # an operand whose length is known to be the same number gets its positions spelled out
+            seqs = [s if s.fixed is not None else (self.concretise(s, fx[0]) or s) for s in seqs]
         if all(s.fixed is not None for s in seqs) and len({len(s.fixed) for s in seqs}) == 1:
             items = tuple(TupleV(tuple(s.fixed[i] for s in seqs)) for i in range(len(seqs[0].fixed)))
             elem: Val = Bottom()
@@ -434,11 +443,27 @@ class BuiltinCalls:
             wit = TupleV(tuple([seqs[0].witness] + [subst_val(e, {kv: STAR}) for e in elems[1:]]))
         return Seq(length, TupleV(tuple(elems)), kv, None, wit, flags, "iter")
 
+    @staticmethod
+    def concretise(s: Seq, k: int) -> Optional[Seq]:
+        """A sequence known to have exactly k (small) elements, positions modelled: the same sequence with its k elements listed."""
+        if s.fixed is not None:
+            return s if len(s.fixed) == k else None
+        if s.length.lo != k or s.length.hi != k or k > 6 or s.witness is not None or s.flags & {"reordered", "building", "weak-append", "unmodelled", "dict-order"}:
+            return None
+        items = tuple(subst_val(s.elem, {s.kvar: ("c", i)}) for i in range(k))
+        return replace(s, fixed=items)
+
     def zip_star(self, sq: Seq, node, state, longest: bool) -> Val:
         """zip(*M): transposition when the rows have a statically known width; chunking idiom for
         zip(*[iter(L)] * k)."""
         I = self.I
         el = sq.elem
+        if sq.fixed is not None and len(sq.fixed) >= 1 and isinstance(sq.fixed[0], Ptr) and all(x == sq.fixed[0] for x in sq.fixed):
+            d0 = I.deref(state, sq.fixed[0])
+            if d0 is not None and isinstance(d0[0], IterObj):
+                # [iter(L)] * k with a constant k: k references to one iterator
+                sq = replace(sq, flags=sq.flags | {"repeat"}, fixed=None, elem=sq.fixed[0])
+                el = sq.elem
         if "repeat" in sq.flags and isinstance(el, Ptr):
             d = I.deref(state, el)
             if d is not None and isinstance(d[0], IterObj):
@@ -492,13 +517,18 @@ class BuiltinCalls:
             return None
         base_term = lt[1]
         base = I.pairs_base.get(base_term)
-        if base is None or k.term is None or k.term[0] != "num":
+        if base is None:
             return None
-        want = p_add(p_atom(("lenterm", base_term)), p_const(1), -1)
-        got = to_poly(k.term[1])
-        if got != want:
-            I.event("chunk-mismatch", node, k=k.term, base=base_term)
+        if k.known() is not None and base.lo == base.hi == k.known() + 1:
+            pass  # the number of teams is an exact constant in this run and the chunk length is that constant minus one
+        elif k.term is None or k.term[0] != "num":
             return None
+        else:
+            want = p_add(p_atom(("lenterm", base_term)), p_const(1), -1)
+            got = to_poly(k.term[1])
+            if got != want:
+                I.event("chunk-mismatch", node, k=k.term, base=base_term)
+                return None
         kv = inner.kvar
         okv = f"kc{I.site_id('chunk', node)}"
         ikv = f"kd{I.site_id('chunk', node)}"
@@ -766,6 +796,12 @@ class BuiltinCalls:
             idx = Num(kinds=INT, rng=Interval(0.0, max(hi - 1, 0) if hi < INF else INF, False, hi == INF), deg=F0, sym=("idx", ivar("k")))
             return Seq(Length(term, lo, hi), idx, "k", None, None, frozenset(), "iter")
         lo_n, hi_n = nums[0], nums[1]
+        if len(nums) == 2 and isinstance(lo_n.const, int) and isinstance(hi_n.const, int) and not isinstance(lo_n.const, bool) and 0 <= hi_n.const - lo_n.const <= 4:
+            items = tuple(replace(lift_const(i), deg=F0) for i in range(lo_n.const, hi_n.const))
+            elem = Bottom()
+            for x in items:
+                elem = join_val(elem, x)
+            return Seq(Length.const(len(items)), elem if items else Top("empty"), "k", items, None, frozenset(), "iter")
         rng = None
         if lo_n.rng is not None and hi_n.rng is not None:
             rng = Interval(lo_n.rng.lo, hi_n.rng.hi, lo_n.rng.lo_open, True)
@@ -844,9 +880,70 @@ class BuiltinCalls:
         flags = set(s.flags)
         if s.fixed is not None and len(s.fixed) <= 1:
             return s
+        if s.fixed is not None and len(s.fixed) <= 6 and rev is False:
+            conc = self._concrete_sort(s, key, node, state)
+            if conc is not None:
+                return conc
         elem = subst_val(s.elem, {s.kvar: inner})
         wit = s.witness
         return Seq(s.length, elem, s.kvar, None, wit, frozenset(flags), s.kind)
+
+    def _concrete_sort(self, s: Seq, key, node, state: State) -> Optional[Seq]:
+        """Stable ascending sort of a short explicit list when every comparison it needs is decided (constants, or the
+        relations assumed between the elements' terms). None when some comparison is open."""
+        I = self.I
+        items = list(s.fixed)
+        if key is not None and not isinstance(key, NoneV):
+            keys = []
+            for x in items:
+                st = state.copy()
+                kv = I.call_value(key, [x], {}, node, st)
+                if st.bottom:
+                    return None
+                keys.append(kv)
+        else:
+            keys = items
+
+        def rel(a, b):
+            """'LT' / 'EQ' / 'GT' / None (open)"""
+            if isinstance(a, TupleV) and isinstance(b, TupleV):
+                for x, y in zip(a.items, b.items):
+                    r = rel(x, y)
+                    if r != "EQ":
+                        return r
+                return "EQ" if len(a.items) == len(b.items) else ("LT" if len(a.items) < len(b.items) else "GT")
+            an, bn = I.as_num(a), I.as_num(b)
+            if an is None or bn is None:
+                return None
+            st = state.copy()
+            lt = I.ops.compare(ast.Lt(), an, bn, node, st)
+            if lt.tv is True:
+                return "LT"
+            gt = I.ops.compare(ast.Gt(), an, bn, node, st)
+            if gt.tv is True:
+                return "GT"
+            eq = I.ops.compare(ast.Eq(), an, bn, node, st)
+            if eq.tv is True:
+                return "EQ"
+            return None
+
+        order: List[int] = []
+        for i in range(len(items)):
+            pos = len(order)
+            for j, o in enumerate(order):
+                r = rel(keys[i], keys[o])
+                if r is None:
+                    return None
+                if r == "LT":
+                    pos = j
+                    break
+            # every element after pos must be decided too (stability needs the first strictly greater one)
+            order.insert(pos, i)
+        out = tuple(items[i] for i in order)
+        elem: Val = Bottom()
+        for x in out:
+            elem = join_val(elem, x)
+        return Seq(Length.const(len(out)), elem, s.kvar, out, None, frozenset(s.flags), s.kind)
 
     def b_reversed(self, args, kwargs, node, state):
         I = self.I
